@@ -121,18 +121,15 @@ Proof.
 Qed.
 
 (* ---- move of a file = copy then delete -------------------------------------------------------------- *)
-Theorem mv_is_cp_then_rm a b c t :
-  stat a t = Some (File c) -> p_is_dir b t = false -> ends_sep b = false -> pk a <> pk b ->
+Theorem mv_is_cp_then_rm a b t :
+  p_is_file a t = true -> p_is_dir b t = false -> ends_sep b = false ->
   S_mv a b t = (let '(o, t1) := S_cp a b t in
                 match o with OVal _ => S_rm None [a] t1 | _ => (OErr, t) end).
 Proof.
-  intros Es Hd He Hne. rewrite (S_mv_unfold _ _ _ _ Es). unfold mv_target. rewrite Hd, He. cbn [orb].
-  unfold S_cp. rewrite Es. unfold same_entry. rewrite (bool_decide_eq_false_2 _ Hne), andb_false_r.
-  destruct (put_file b c t) as [t1|] eqn:E; [|done].
-  cbn [S_rm S_rm_list]. unfold S_rm_one.
-  assert (stat a t1 = Some (File c)) as ->; [|done].
-  apply put_file_Some in E as (t0 & Hm & Hp & Hk & Hd' & ->). apply stat_file in Es as [Hl Hpa].
-  apply stat_file. split; [|done]. rewrite lookup_insert_ne by done. by eapply mkdirs_keeps.
+  intros Hf Hd He. unfold S_mv, p_is_file in *. destruct (stat a t) as [[c|]|]; [|done|done].
+  unfold mv_target. rewrite Hd, He. cbn [orb].
+  destruct (S_cp a b t) as [o t1]. destruct o; try done.
+  cbn [S_rm S_rm_list]. by destruct (S_rm_one false a t1) as [[] t2].
 Qed.
 Theorem mv_into_directory a b name t :
   p_is_dir b t = true -> last (pk a) = Some name ->
@@ -199,7 +196,8 @@ Proof.
   - unfold S_cp. destruct (stat a t) as [[c|]|]; [|by left|by left].
     destruct (same_entry a b); [by left|]. destruct (put_file _ _ _); [by right|by left].
   - destruct (stat a t) as [[c|]|] eqn:Es.
-    + rewrite (S_mv_unfold _ _ _ _ Es). destruct (put_file _ _ _); [by right|by left].
+    + rewrite (S_mv_unfold _ _ _ _ Es). destruct (same_entry _ _); [by left|].
+      destruct (put_file _ _ _); [by right|by left].
     + unfold S_mv. rewrite Es. by left.
     + unfold S_mv. rewrite Es. by left.
   - unfold S_rm. destruct ps as [|p [|p' ps]]; [by left| |cbn [length] in Hs; lia].
